@@ -56,7 +56,7 @@ def scale_of(ks, cs, ring):
 
 
 def encode(ks, cs, wrap, scale=1):
-    """One byte string per event.  Every event that may carry a payload has
+    """One byte string per event.  Every event that carries a payload has
     its (1-based) input position in it, so all such events differ bytewise.
     The region markers are the real ones: OU[ / OU] without payload.
     wrap: first/last normal event are written as OHx / OHe (for ovniemu)."""
@@ -76,6 +76,10 @@ def encode(ks, cs, wrap, scale=1):
             b = obs.ev("OHx", clk, struct.pack("<iiQ", 0, TID, i))
         elif wrap and i == n:
             b = obs.ev("OHe", clk)
+        elif ((i // 2) + sum(cs) + n) % 2 == 0:
+            # about half of the normal events carry no payload at all (12 bytes, the size of the markers);
+            # two of them with the same clock are bytewise identical, hence interchangeable
+            b = obs.ev("OB.", clk)
         else:
             b = obs.ev("OB.", clk, struct.pack("<I", i) + _fill((i * 7) % 13, i))
         out.append(b)
